@@ -358,9 +358,16 @@ let run_case (lines : string list) =
          let conts = Array.init nc (fun _ -> let k = tk_int tk in Array.init k (fun _ -> M.rtrim (tk_str tk))) in
          let nq = tk_int tk in
          let b = Buffer.create 64 in Buffer.add_string b "ok";
+         let kept = ref None in
          for _ = 1 to nq do
            let what = next tk in let c = tk_int tk in
-           if what = "r" then begin
+           if what = "k" then begin
+             let j = tk_int tk in
+             if j < Array.length conts.(c) then (kept := Some (c, j); Buffer.add_string b " k") else Buffer.add_string b " o"
+           end else if what = "w" then begin
+             let n = tk_str tk in
+             (match !kept with Some (kc, kj) -> conts.(kc).(kj) <- M.rtrim n; Buffer.add_string b " w" | None -> Buffer.add_string b " -")
+           end else if what = "r" then begin
              let j = tk_int tk in let n = tk_str tk in
              if j < Array.length conts.(c) then (conts.(c).(j) <- M.rtrim n; Buffer.add_string b " r") else Buffer.add_string b " o"
            end else begin
